@@ -75,6 +75,14 @@ def regex_texts(rx):
 
 
 def texts_for(tname, spec_extra):
+    base = _texts_for(tname, spec_extra)
+    # a valid text followed by something that looks like an inline comment (configparser has none by default:
+    # the whole thing is the value, and for most types it is invalid)
+    canon = [t for t in base[0][1] if t.strip()][:3]
+    return base + [('comment-suffix', [f'{t} ;or was it 7?' for t in canon] + [f'{t} # note' for t in canon] + [f'{t}  ; x' for t in canon[:1]])]
+
+
+def _texts_for(tname, spec_extra):
     if tname in ('int', 'float'):
         return NUMERIC + (UNICODE_NUM if UTF8 else [])
     if tname == 'bool':
@@ -257,7 +265,21 @@ def eval_echo(case, engine, acc=None):
         pf = None
         if user is not None:
             pf = seams.solver_prompt(rec, lambda name, inp, k: None if user == 'refuse' else user)
-        with seams.installed(rec), core.cpu_alarm(10):
+        if case.get('via') == 'cli' and user is None:
+            # the same file through `habutax solve` (the CLI builds its own store)
+            kind_, exc_, out_ = simrun.run_cli(['solve', path, '--year', str(synth.SYNTH_YEAR), '--form', 'fa'], rec=rec,
+                                               year_forms={synth.SYNTH_YEAR: classes})
+            if kind_ == 'return':
+                outcome = 'solved' if '\nSuccessfully solved!' in out_ else 'failed'
+                unmet = {}
+                try:
+                    unmet = rec.solvers[-1].unmet_input_dependencies()
+                except Exception:
+                    pass
+            else:
+                outcome, exc = 'abort', exc_
+        else:
+          with seams.installed(rec), core.cpu_alarm(10):
             try:
                 store = hb_inputs.InputStore(path)
                 s = hb_solver.Solver(store, classes, prompt=pf)
@@ -546,7 +568,8 @@ def make_case(engine, seed):
         user = None
         if rng.chance(0.4):
             user = 'refuse' if rng.chance(0.5) else rng.pick(classes[0][1])
-        return {'spec': spec, 'texts': texts, 'channel': 'file', 'sched': [None, 0], 'user': user}
+        return {'spec': spec, 'texts': texts, 'channel': 'file', 'sched': [None, 0], 'user': user,
+                'via': 'cli' if (user is None and rng.chance(0.4)) else 'api'}
     n = rng.pick([1, 2, 2, 3, 4])
     texts = []
     for _ in range(n):
